@@ -5,6 +5,8 @@ import (
 	"encoding/binary"
 	"fmt"
 	"net/netip"
+	"sort"
+	"sync"
 	"sync/atomic"
 	"testing"
 
@@ -90,8 +92,27 @@ func c12MacDevs() []c12MacDev {
 		c12MacDev{"over-ingress^1", false, func(k []byte, s uint16, ts uint32, h rtr.Hop) [6]byte { return mk(k, s, ts, h.Exp, h.In^1, h.Eg) }},
 		c12MacDev{"over-swapped-ifs", false, func(k []byte, s uint16, ts uint32, h rtr.Hop) [6]byte { return mk(k, s, ts, h.Exp, h.Eg, h.In) }},
 		c12MacDev{"zero", false, func(k []byte, s uint16, ts uint32, h rtr.Hop) [6]byte { return [6]byte{} }},
+		// the MAC of the same hop field with ONE input forced to a fixed value (a router that "canonicalises" the hop field
+		// before recomputing the MAC accepts exactly these). Whether such a MAC is valid depends on the packet: it is
+		// when the packet's own value equals the forced one - validity is always decided by comparison with the MAC over the
+		// hop field as carried (see c12Valid), never by the name of the deviation.
+		c12MacDev{"over-ingress=0", false, func(k []byte, s uint16, ts uint32, h rtr.Hop) [6]byte { return mk(k, s, ts, h.Exp, 0, h.Eg) }},
+		c12MacDev{"over-ingress=9", false, func(k []byte, s uint16, ts uint32, h rtr.Hop) [6]byte { return mk(k, s, ts, h.Exp, 9, h.Eg) }},
+		c12MacDev{"over-ingress=egress", false, func(k []byte, s uint16, ts uint32, h rtr.Hop) [6]byte { return mk(k, s, ts, h.Exp, h.Eg, h.Eg) }},
+		c12MacDev{"over-egress=0", false, func(k []byte, s uint16, ts uint32, h rtr.Hop) [6]byte { return mk(k, s, ts, h.Exp, h.In, 0) }},
+		c12MacDev{"over-exptime=0", false, func(k []byte, s uint16, ts uint32, h rtr.Hop) [6]byte { return mk(k, s, ts, 0, h.In, h.Eg) }},
+		c12MacDev{"over-exptime=63", false, func(k []byte, s uint16, ts uint32, h rtr.Hop) [6]byte { return mk(k, s, ts, 63, h.In, h.Eg) }},
+		c12MacDev{"over-segid=0", false, func(k []byte, s uint16, ts uint32, h rtr.Hop) [6]byte { return mk(k, 0, ts, h.Exp, h.In, h.Eg) }},
+		c12MacDev{"over-timestamp=0", false, func(k []byte, s uint16, ts uint32, h rtr.Hop) [6]byte { return mk(k, s, 0, h.Exp, h.In, h.Eg) }},
 	)
 	return d
+}
+
+// c12Valid: is the carried MAC the MAC of the hop field as it is in the packet (SegID, timestamp, ExpTime, ConsIngress,
+// ConsEgress) under the AS key? Clean-room AES-CMAC (rtr.FullHopMAC).
+func c12Valid(key []byte, segID uint16, ts uint32, h rtr.Hop) bool {
+	f := rtr.FullHopMAC(key, segID, ts, h.Exp, h.In, h.Eg)
+	return bytes.Equal(f[:6], h.Mac[:])
 }
 
 // c12Capture is a router.Link that records what is sent over it.
@@ -119,18 +140,27 @@ func c12NeighbourCfg(x uint16, withBFD bool) rtr.Cfg {
 func TestC12(t *testing.T) {
 	r := mc.NewRun(t, "C12", mc.Exploration)
 	r.Rule = "(A) one-hop packets from inside the AS: arrival {internal link, each sibling link} x ConsEgress {every own interface, every " +
-		"sibling-owned interface, 0, unknown} x ConsIngress {0, 9} x SrcIA x DstIA in {local, neighbour behind ConsEgress, another neighbour, " +
+		"sibling-owned interface, 0, unknown} x ConsIngress {0, unknown 9, a real interface of the AS} x SrcIA x DstIA in {local, neighbour behind ConsEgress, another neighbour, " +
 		"third, neighbour's AS number in another ISD}^2 x first-hop MAC {valid, 12 bit flips, other key, over wrong SegID/timestamp/ExpTime/" +
-		"egress/ingress, swapped, zero} x ConsDir x {single, multi BR} x 2 keys (thorough: x 5 SegID/ExpTime/timestamp settings incl. expired and future); (B) one-hop packets from outside: every own interface x " +
+		"egress/ingress, swapped, zero, MAC of the same hop field with ONE input forced: ConsIngress 0 / 9 / = ConsEgress, ConsEgress 0, ExpTime 0 / 63, SegID 0, timestamp 0 - valid exactly when the packet carries the forced value, decided by comparing with the clean-room MAC over the hop field as carried} x ConsDir x {single, multi BR} x 2 keys (thorough: x 5 SegID/ExpTime/timestamp settings incl. expired and future); (B) one-hop packets from outside: every own interface x " +
 		"SrcIA x DstIA (same 5 classes + local AS number in another ISD)^2 x ConsDir x first-hop ConsEgress {77, 0, receiving interface, another own interface, sibling-owned interface} x first-hop MAC {foreign, " +
 		"hop field genuinely issued by this AS and replayed by an outsider: valid for the carried SegID / carried with the on-wire SegID} x pre-filled second hop {zero, garbage} x destination " +
 		"host {IPv4, IPv6, registered SVC, unregistered SVC} x SegID x ExpTime; (C) full walk through two real routers (neighbour AS with its " +
-		"own key): send, complete, reverse (clean-room reversal and onehop.Path.Reverse), send back, deliver; (D) the real bfdSend output " +
+		"own key): send, complete, reverse (clean-room reversal and onehop.Path.Reverse), send back, deliver; (E) the walk in the other direction: a local host sends through this router with first-hop ConsIngress {0, 9, real interface, 0xffff} x SegID x ExpTime x age x destination kind, the neighbour completes, the clean-room reversed reply leaves the neighbour and must be accepted and delivered by this router; (D) the real bfdSend output " +
 		"inspected and fed to the peer router. distinct key = part+all parameters; non-trivial = all"
-	var nHarness atomic.Int64
-	harness := func(f string, a ...any) {
-		if nHarness.Add(1) <= 5 {
-			r.HarnessError(f, a...)
+	// Valid packets that are not sent / not accepted: the first two sentences of the statement are necessary conditions
+	// ("only if"), so these are observations (counted per class, first example kept), not verdicts, and the exploration goes
+	// on. What the statement does promise about valid packets - the completed path works in both directions - is judged by
+	// the walks (C) and (E), where a valid packet that does not get through is a violation.
+	var nSentValid, nAcceptedValid atomic.Int64
+	var obsMu sync.Mutex
+	obsCount, obsFirst := map[string]int64{}, map[string]any{}
+	observe := func(cls string, detail func() map[string]any) {
+		obsMu.Lock()
+		defer obsMu.Unlock()
+		obsCount[cls]++
+		if _, ok := obsFirst[cls]; !ok {
+			obsFirst[cls] = detail()
 		}
 	}
 	local := rtr.LocalIA
@@ -201,7 +231,11 @@ func TestC12(t *testing.T) {
 				arrivals = append(arrivals, rtr.FromSibling(11), rtr.FromSibling(23))
 			}
 			for ai, arr := range arrivals {
-				for _, cin := range []uint16{0, 9} {
+				cinReal := uint16(6) // ConsIngress naming a real interface of the AS (other than the egress)
+				if j.eg == 6 {
+					cinReal = 1
+				}
+				for _, cin := range []uint16{0, 9, cinReal} {
 					for si, src := range ias {
 						for di, dst := range ias {
 							for _, dev := range devs {
@@ -231,7 +265,11 @@ func TestC12(t *testing.T) {
 										if src != local {
 											why = append(why, "src-not-local")
 										}
-										if !dev.valid {
+										macValid := c12Valid(j.key, o.segID, o.ts, o.first)
+										if dev.valid && !macValid {
+											r.HarnessError("clean-room MAC of deviation %q is not valid for its own hop field: %s", dev.name, k)
+										}
+										if !macValid {
 											why = append(why, "mac-invalid")
 										}
 										if f == nil || dst != nbr {
@@ -253,7 +291,7 @@ func TestC12(t *testing.T) {
 										// all three conditions hold
 										if !fwd {
 											if cd {
-												harness("valid one-hop packet from inside not sent: %v", detail())
+												observe(fmt.Sprintf("A:valid-one-hop-packet-from-inside-not-sent:cons-ingress-%s", map[bool]string{true: "0", false: "non-zero"}[cin == 0]), detail)
 											} else {
 												r.Outcome("not-sent:against-construction-direction")
 											}
@@ -271,8 +309,12 @@ func TestC12(t *testing.T) {
 											r.Violation("sent-bytes-unexpected", d)
 											continue
 										}
+										nSentValid.Add(1)
 										if f.Owner == 0 {
 											r.Outcome("sent-to-neighbour")
+											if !dev.valid {
+												r.Outcome("sent-to-neighbour:mac-of-forced-input-coincides-with-valid-mac")
+											}
 											continue
 										}
 										// handed to the sibling that owns the interface: what does the owner do with it?
@@ -397,7 +439,7 @@ func TestC12(t *testing.T) {
 												}
 												if !fwd {
 													if cd && h.ok {
-														harness("valid incoming one-hop packet not accepted: %v", detail())
+														observe("B:valid-incoming-one-hop-packet-not-accepted", detail)
 													} else {
 														r.Outcome("not-accepted:" + map[bool]string{true: "unresolvable-destination", false: "against-construction-direction"}[cd])
 													}
@@ -421,6 +463,7 @@ func TestC12(t *testing.T) {
 													r.Violation("completed-packet-unexpected", d)
 													continue
 												}
+												nAcceptedValid.Add(1)
 												r.Outcome("accepted-and-completed")
 											}
 										}
@@ -552,6 +595,102 @@ func TestC12(t *testing.T) {
 			}
 		})
 
+		// ---------------- (E) walk in the other direction: we send, the neighbour completes, the reply comes back ----------------
+		// The first hop field is ours here. Its ConsIngress is whatever the sender chose (0 as the control service and BFD
+		// do, an unknown interface, a real interface of the AS): the MAC covers it, and the reversed path carries it back.
+		mc.ParallelFor(len(jc), func(ji int) {
+			j := jc[ji]
+			cfgA := rtr.StdCfg(j.multi, j.key)
+			A := rtr.MustBuild(cfgA)
+			cfgN := c12NeighbourCfg(j.x, false)
+			N := rtr.MustBuild(cfgN)
+			cinReal := uint16(6)
+			if j.x == 6 {
+				cinReal = 1
+			}
+			for _, cin := range []uint16{0, 9, cinReal, 0xffff} {
+				for _, segID := range []uint16{0x0000, 0xffff, 0x3c5a} {
+					for _, exp := range []uint8{0, 63, 255} {
+						for _, age := range []uint32{10, 300} {
+							for hi, dstH := range []rtr.Host{rtr.V4("10.0.0.77"), rtr.V6("fd00::77"), rtr.SVC(2)} {
+								k := fmt.Sprintf("E|m%v|k%x|if%d|in%d|sid%x|exp%d|age%d|h%d", j.multi, j.key[0], j.x, cin, segID, exp, age, hi)
+								r.Case(k, true)
+								ts := now - age
+								o := c12OHP{src: local, dst: cfgN.IA, srcH: rtr.V4("10.0.0.100"), dstH: dstH, consDir: true, segID: segID, ts: ts,
+									first: rtr.Hop{In: cin, Eg: j.x, Exp: exp}, l4: rtr.L4UDP}
+								m := rtr.FullHopMAC(j.key, segID, ts, exp, cin, j.x)
+								copy(o.first.Mac[:], m[:6])
+								p := o.pkt()
+								raw, lay := p.Serialize()
+								cinCls := "cons-ingress-non-zero"
+								if cin == 0 {
+									cinCls = "cons-ingress-0"
+								}
+								step := func(name string, rt *rtr.Router, b []byte, in rtr.Ingress, wantEgress uint16) ([]byte, bool) {
+									res := rt.Process(b, in)
+									if res.Panic != nil || res.Fast.Disp != router.VerifForward || res.Fast.Egress != wantEgress {
+										r.Violation("outgoing-walk-step-failed:"+name+":"+cinCls, map[string]any{"case": k, "step": name, "disp": dispName(res.Fast.Disp),
+											"egress": res.Fast.Egress, "want_egress": wantEgress, "panic": fmt.Sprint(res.Panic),
+											"sp":     fmt.Sprintf("type=%d code=%d ptr=%d", res.Fast.SPType, res.Fast.SPCode, res.Fast.SPPointer),
+											"packet": fmt.Sprintf("%x", b)})
+										return nil, false
+									}
+									return res.Out, true
+								}
+								// 1. a host of our AS sends the packet through our router (first hop field valid under our key)
+								b1, ok := step("we-send", A, raw, rtr.FromHost, j.x)
+								if !ok {
+									continue
+								}
+								// 2. the neighbour's router completes it
+								b2, ok := step("neighbour-completes", N, b1, rtr.FromExt(7), 0)
+								if !ok {
+									continue
+								}
+								// what left our router: the input with only the SegID chained; the neighbour may only have filled in the second hop
+								want := append([]byte{}, raw...)
+								binary.BigEndian.PutUint16(want[lay.InfoOff[0]+2:], segID^binary.BigEndian.Uint16(o.first.Mac[:2]))
+								if !bytes.Equal(b1, want) || !bytes.Equal(b2[lay.HopOff[0]:lay.HopOff[0]+12], raw[lay.HopOff[0]:lay.HopOff[0]+12]) {
+									r.Violation("outgoing-walk:first-hop-field-or-packet-altered:"+cinCls, map[string]any{"case": k, "in": fmt.Sprintf("%x", raw),
+										"sent": fmt.Sprintf("%x", b1), "completed": fmt.Sprintf("%x", b2)})
+									continue
+								}
+								// 3. clean-room reversal (as in part C): one segment against construction direction, hop fields in reverse
+								// order, pointers at the start, SegID as received
+								hop := func(b []byte) rtr.Hop {
+									var h rtr.Hop
+									h.InAlert, h.EgAlert, h.FlagsExtra = b[0]&2 != 0, b[0]&1 != 0, b[0]&^3
+									h.Exp, h.In, h.Eg = b[1], binary.BigEndian.Uint16(b[2:]), binary.BigEndian.Uint16(b[4:])
+									copy(h.Mac[:], b[6:12])
+									return h
+								}
+								replySrc := dstH
+								if dstH.Kind == rtr.HostSVC {
+									replySrc = rtr.V4("10.0.0.60")
+								}
+								rp := rtr.Pkt{TrafficClass: 0xb8, FlowID: 0xdead, PathType: rtr.PathSCION, SrcIA: uint64(cfgN.IA), DstIA: uint64(local),
+									Src: replySrc, Dst: rtr.V4("10.0.0.100"),
+									Segs: []rtr.Seg{{ConsDir: false, SegID: binary.BigEndian.Uint16(b2[lay.InfoOff[0]+2:]), TS: binary.BigEndian.Uint32(b2[lay.InfoOff[0]+4:]),
+										Hops: []rtr.Hop{hop(b2[lay.HopOff[1]:]), hop(b2[lay.HopOff[0]:])}}}}
+								rp.SetUDP(40002, 40001, []byte("c12-reply"))
+								rraw, _ := rp.Serialize()
+								// 4. the neighbour's router sends the reply out of the interface the packet came in on
+								b3, ok := step("reply-leaves-neighbour", N, rraw, rtr.FromHost, 7)
+								if !ok {
+									continue
+								}
+								// 5. our router accepts the reversed path (our own first hop field, now the last hop) and delivers
+								if _, ok := step("reply-arrives-at-first-router", A, b3, rtr.FromExt(j.x), 0); !ok {
+									continue
+								}
+								r.Outcome("outgoing-walk-complete-both-routers-accept-reversed-path:" + cinCls)
+							}
+						}
+					}
+				}
+			}
+		})
+
 		// ---------------- (D) the router's own one-hop packets (BFD) ----------------
 		for _, multi := range []bool{false, true} {
 			for _, key := range keys {
@@ -643,12 +782,28 @@ func TestC12(t *testing.T) {
 		raw, _ := p.Serialize()
 		r.Sample(map[string]any{"part": "B", "ingress": "external interface 1", "packet": fmt.Sprintf("%x", raw)})
 	})
-	if n := nHarness.Load(); n > 5 {
-		r.HarnessError("%d harness errors in total (first 5 shown)", n)
+	r.Extra["valid_one_hop_packets_sent"], r.Extra["valid_one_hop_packets_accepted"] = nSentValid.Load(), nAcceptedValid.Load()
+	if nSentValid.Load() == 0 || nAcceptedValid.Load() == 0 {
+		r.HarnessError("no valid one-hop packet at all was sent (%d) / accepted (%d): every rejection of this run is vacuous (harness or router set-up broken)",
+			nSentValid.Load(), nAcceptedValid.Load())
+	}
+	{
+		var clss []string
+		for c := range obsCount {
+			clss = append(clss, c)
+		}
+		sort.Strings(clss)
+		obs := map[string]any{}
+		for _, c := range clss {
+			obs[c] = map[string]any{"count": obsCount[c], "first": obsFirst[c]}
+			fmt.Printf("OBSERVATION property=C12 %s: %d packets (no violation of the 'only if' clauses; the round trip of valid packets is judged in parts C and E)\n", c, obsCount[c])
+		}
+		r.Extra["observations_on_valid_packets"] = obs
 	}
 	r.Assumptions = []string{
 		"'sends out of its AS' covers handing the packet to the sibling router that owns the egress interface: the three conditions are demanded there too",
-		"the statement gives necessary conditions; packets that meet them but run against construction direction or have an unresolvable destination may be dropped",
+		"the first two sentences give necessary conditions; packets that meet them but run against construction direction or have an unresolvable destination may be dropped. A packet that meets them, runs in construction direction and is still not sent / not accepted in parts A/B is counted as an observation (Extra.observations_on_valid_packets), not a verdict; the third sentence is two-sided and judged by the walks C and E, where a valid packet that does not get through is a violation; a harness failure remains only when no valid one-hop packet at all is sent or accepted",
+		"'the first hop field's MAC is valid for this router': the carried MAC equals the first 6 bytes of AES-CMAC under the AS key over the hop field AS CARRIED - SegID, timestamp, ExpTime, ConsIngress and ConsEgress (scion-header.rst); a first hop field with a non-zero ConsIngress is unusual but not forbidden by the statement, and its MAC covers that value",
 		"expiry of one-hop hop fields is not part of the statement and not judged (the reversed SCION path in part C is unexpired)",
 		"one-hop packets carrying BFD are consumed by the link's BFD session without any path processing; their ISD-AS fields are not judged as 'accepting a one-hop packet' (recorded as observation); the sending side (bfdSend) is judged",
 		"'reversed path accepted by both routers': reply built by a clean-room reversal, required to be byte-identical to the reply built with onehop.Path.Reverse, must be forwarded by this router out of the receiving interface and delivered by the neighbour's router",
